@@ -1,4 +1,4 @@
-//! Dispatch: property id -> check, and replay of saved cases.
+//! Dispatch: property id -> check, replay of saved cases, child kinds.
 
 use crate::fw::{Report, Stage};
 use crate::props;
@@ -7,17 +7,26 @@ use serde_json::Value as J;
 pub fn run(rep: &Report) -> bool {
     match rep.prop.as_str() {
         "C01" => props::c01::run(rep),
+        "C16" => props::c16::run(rep),
+        "C17" => props::c17::run(rep),
+        "C19" => props::c19::run(rep),
         _ => return false,
     }
     true
 }
 
-fn replay_stage<S: Stage>(rep: &Report, stage: &S, j: &J) -> i32 {
+/// Replay one saved input through a stage. Known findings are NOT suppressed when
+/// replaying (Report.strict is set by `replay`).
+pub fn replay_stage<S: Stage>(rep: &Report, stage: &S, j: &J) -> i32 {
     match serde_json::from_value::<S::Input>(j["input"].clone()) {
         Ok(inp) => {
-            // strict: known findings are reported as violations too when replaying
             let v = rep.run_one(stage, &inp);
-            if v.is_some() { 1 } else { println!("replay: no violation"); 0 }
+            if v.is_some() {
+                1
+            } else {
+                println!("replay: no violation");
+                0
+            }
         }
         Err(e) => {
             eprintln!("cannot decode replay input: {e}");
@@ -36,12 +45,26 @@ pub fn replay(rep: &Report, path: &str) -> i32 {
         eprintln!("cannot parse {path}");
         return 2;
     };
-    let stage = j["stage"].as_str().unwrap_or("");
-    match (rep.prop.as_str(), stage) {
-        ("C01", _) => replay_stage(rep, &props::c01::C01 { cfg: Default::default(), pairs_per_prefix: 5 }, &j),
+    let stage = j["stage"].as_str().unwrap_or("").to_string();
+    match rep.prop.as_str() {
+        "C01" => props::c01::replay(rep, &stage, &j),
+        "C16" => props::c16::replay(rep, &stage, &j),
+        "C17" => props::c17::replay(rep, &stage, &j),
+        "C19" => props::c19::replay(rep, &stage, &j),
         _ => {
             eprintln!("no replay handler for {}/{}", rep.prop, stage);
             2
         }
+    }
+}
+
+/// `vcheck --child <kind>`: kinds are "<property>-<what>", handled by the property's module.
+pub fn child_dispatch(kind: &str, payload: &J) -> Option<J> {
+    let prop = kind.split('-').next().unwrap_or("");
+    match prop {
+        "c16" => props::c16::child(kind, payload),
+        "c17" => props::c17::child(kind, payload),
+        "c19" => props::c19::child(kind, payload),
+        _ => None,
     }
 }
